@@ -1,6 +1,7 @@
 package rules
 
 import (
+	"sort"
 	"strings"
 
 	"mcvet/engine"
@@ -34,6 +35,11 @@ func checkC09(r *Report, p *Program) {
 	claimMovePairing(r, p, "R09.6")
 	revisionCopies(r, p, "R09.7")
 	keyCompleteness(r, p, "R09.8", "claimMapKey")
+	// the children the sync drives are those the persisted revisions record, at the recorded revision (shared with C07)
+	r07_5(r, p)
+	// a failed sync comes back: error ⇒ rate-limited requeue, never Forget (shared with C12)
+	r12_3(r, p)
+	r09_10(r, p)
 	// a failed claim / revision write stops the sync before children are reconciled from an incomplete view (R12.1 on the revision code)
 	errorRule(r, p, "R09.9", 8, func(f *ssa.Function) bool {
 		file := p.File(f)
@@ -414,4 +420,51 @@ func r09_5(r *Report, p *Program) {
 		}
 	}
 	r.Check(rule, FK(f)+"[children:=rebuilt]", p.Pos(f.Pos()), okS, "revision.Children replaced by the rebuilt list", "the rebuilt children list is not stored back into the revision")
+}
+
+// r09_10: two more structural facts of the revision bookkeeping.
+func r09_10(r *Report, p *Program) {
+	const rule = "R09.10"
+	r.Rule(rule, "syncRevisionClaims keeps a kind's claims exactly when the kind's strategy is rolling; a new ControllerRevision is labelled from the parent's spec.template.metadata.labels (or controller-uid when the selector is generated)")
+	r.Floor(rule, 2)
+	if f := fn(r, p, rule, "controller/composite.parentController.syncRevisionClaims"); f != nil {
+		var names *engine.RangeLoop
+		for _, l := range engine.RangeLoops(f) {
+			if strings.HasSuffix(E(l.X), ".Names") {
+				names = l
+			}
+		}
+		ok, why := names != nil, "no loop over a kind's recorded names"
+		if ok {
+			first := names.Header.Instrs[0]
+			rolling := func(l Lit) bool {
+				return l.Pos && strings.Contains(l.Atom, "updateStrategyMap.isRolling)(p0.updateStrategy, ") && strings.Contains(l.Atom, ".APIGroup") && strings.HasSuffix(l.Atom, ".Kind)")
+			}
+			if w := unguarded(f, nil, first, rolling); w != nil {
+				ok, why = false, "the claims of a child kind are processed (kept) without the kind's strategy being a rolling one: when a kind is switched to InPlace/Recreate/OnDelete mid-rollout its claims stay on the old revision for ever, the old revision never drains and is never deleted; "+pathWhy(w)
+			}
+		}
+		r.Check(rule, FK(f)+"[kind-kept⇔rolling]", p.Pos(f.Pos()), ok, "names are processed only across isRolling(group, kind)", why)
+	}
+	if f := fn(r, p, rule, "controller/composite.parentController.newControllerRevision"); f != nil {
+		ok, why := false, "no NestedStringMap read of the parent's labels source"
+		for _, cs := range callsTo(f, false, "unstructured.NestedStringMap") {
+			var path []string
+			if len(cs.Common().Args) == 2 {
+				engine.BackSlice(cs.Common().Args[1], func(x ssa.Value) bool {
+					if s, isC := constStr(x); isC {
+						path = append(path, s)
+					}
+					return false
+				}, nil)
+			}
+			sort.Strings(path)
+			want := []string{"labels", "metadata", "spec", "template"}
+			ok = strings.Join(path, ",") == strings.Join(want, ",") && strings.Contains(E(cs.Common().Args[0]), "UnstructuredContent)(p1)")
+			if !ok {
+				why = sf("the new revision's labels are read from %v of %s: claimRevisions selects revisions with the parent's selector (matchLabels AND matchExpressions), which the template labels satisfy by construction but another field need not — a revision that does not match is released right after it was created and every later sync fails on AlreadyExists", path, E(cs.Common().Args[0]))
+			}
+		}
+		r.Check(rule, FK(f)+"[labels-source]", p.Pos(f.Pos()), ok, "labels := parent.spec.template.metadata.labels", why)
+	}
 }
